@@ -1707,6 +1707,19 @@ impl<'a, C: Crypto> TransportRunner<'a, C> {
                     packet
                 );
             }
+            Err(e)
+                if matches!(e.code(), ErrorCode::NoSession)
+                    && !packet.header.plain.is_encrypted() =>
+            {
+                // An unsecured message that neither belongs to an unsecured session we know of,
+                // nor is allowed to start one. Drop it silently: answering it (in particular when
+                // it is itself a status report or a standalone ACK) makes two nodes answer each
+                // other's answers forever.
+                mrp_log!(
+                    "\n>>RCV {}\n      => Unsecured message without a session, dropping",
+                    packet
+                );
+            }
             Err(e) if matches!(e.code(), ErrorCode::NoSession) => {
                 // Per Matter Core spec, when a session-bearing
                 // message arrives for which we have no matching secure session
